@@ -207,6 +207,10 @@ var (
 		oPat(PatSpec{Scheme: "https", Host: "example.com", Port: 1}, false, false),
 		oPat(PatSpec{Scheme: "https", Subs: true, Host: "example.com", Port: 65535}, false, false),
 		oPat(PatSpec{Scheme: "http", Host: "localhost", Port: 65535}, false, false),
+		// a default port of the OTHER well-known scheme is an ordinary port (lesson of seeded change C06-r)
+		oPat(PatSpec{Scheme: "https", Host: "example.com", Port: 80}, false, false),
+		oPat(PatSpec{Scheme: "https", Subs: true, Host: "example.org", Port: 80}, false, false),
+		oPat(PatSpec{Scheme: "http", Host: "localhost", Port: 443}, false, false),
 	}
 	insecureOriginAtoms = []OAtom{
 		oPat(PatSpec{Scheme: "http", Host: "example.com"}, true, false),
@@ -230,6 +234,7 @@ var (
 		oPat(PatSpec{Scheme: "http", Subs: true, Host: "a.localhost"}, true, false),
 		oPat(PatSpec{Scheme: "http", Host: "a.example.com"}, true, false),
 		oPat(PatSpec{Scheme: "http", Subs: true, Host: "a.example.com", Port: 8080}, true, false),
+		oPat(PatSpec{Scheme: "http", Host: "example.com", Port: 443}, true, false),
 	}
 	pslOriginAtoms = []OAtom{
 		oPat(PatSpec{Scheme: "https", Subs: true, Host: "com"}, false, true),
@@ -254,6 +259,12 @@ var (
 		oPat(PatSpec{Scheme: "https", Subs: true, Host: "xn--12c1fe0br.xn--o3cw4h", Port: portAny}, false, true),
 		oPat(PatSpec{Scheme: "https", Subs: true, Host: "xn--p1ai"}, false, true),
 		oPat(PatSpec{Scheme: "https", Subs: true, Host: "s3.amazonaws.com"}, false, true),
+		// public suffixes of four, five and six labels - the longest rules of the list (lesson of seeded change C08-r)
+		oPat(PatSpec{Scheme: "https", Subs: true, Host: "s3.dualstack.us-east-1.amazonaws.com"}, false, true),
+		oPat(PatSpec{Scheme: "https", Subs: true, Host: "s3.cn-north-1.amazonaws.com.cn", Port: portAny}, false, true),
+		oPat(PatSpec{Scheme: "https", Subs: true, Host: "cn-north-1.eb.amazonaws.com.cn"}, false, true),
+		oPat(PatSpec{Scheme: "https", Subs: true, Host: "s3.dualstack.cn-north-1.amazonaws.com.cn"}, false, true),
+		oPat(PatSpec{Scheme: "https", Subs: true, Host: "s3-website.dualstack.cn-north-1.amazonaws.com.cn.", Port: 8443}, false, true),
 	}
 	// contextOriginAtoms are used only as neighbours of other atoms and only in configurations that set
 	// DangerouslyTolerateSubdomainsOfPublicSuffixes (their own public-suffix status is then immaterial): subdomains of
